@@ -455,6 +455,33 @@ def flat_fields(rec):
     return out
 
 
+def load_variant(repo, units, variant_flags, min_units=1):
+    """Facts for a subset of units under another preprocessor configuration (e.g. -UNDEBUG: the
+    default CMake build has no NDEBUG). Same cache discipline as load()."""
+    repo = repo or REPO
+    units = list(units)
+    if len(units) < min_units:
+        raise AnalysisBroken('variant extraction: expected >= %d units, got %d' % (min_units, len(units)))
+    key = 'var-' + tree_key(units + header_files(repo)) + '-' + hashlib.sha256(' '.join(variant_flags).encode()).hexdigest()[:8]
+    out = os.path.join(FACTS, key)
+    db = DB()
+    if not os.path.exists(os.path.join(out, '.complete')):
+        if os.path.isdir(out):
+            shutil.rmtree(out)
+        fl = [f for f in flags(repo) if f != '-DNDEBUG'] + list(variant_flags)
+        tmp = out + '.tmp%d' % os.getpid()
+        run_gx(units, [os.path.join(repo, 'src'), os.path.join(repo, 'include')], tmp, fl)
+        open(os.path.join(tmp, '.complete'), 'w').write('ok')
+        try:
+            os.rename(tmp, out)
+        except OSError:
+            shutil.rmtree(tmp, ignore_errors=True)
+    for u in units:
+        db.add_unit(os.path.join(out, os.path.basename(u) + '.json'))
+    db.repo = repo
+    return db
+
+
 def load(repo=None, extra_units=(), extra_roots=(), extra_flags=()):
     """Extract (or reuse content-addressed) facts for all of repo/src/*.cpp (+ extra units)."""
     repo = repo or REPO
